@@ -261,7 +261,7 @@ impl Property for C04 {
         let default_cfg = rng.chance(1, 2);
         let mut ops = vec![Op::Cfg {
             n,
-            file: (0..n).map(|_| rng.chance(1, 3)).collect(),
+            file: (0..n).map(|_| rng.chance(1, 2)).collect(),
             max_set: if default_cfg { 1 } else { *rng.pick(&[0usize, 1, 2, 4]) },
             split: if default_cfg { 2 } else { *rng.pick(&[2usize, 3, 4, 5]) },
             tree_seed: rng.next_u64(),
@@ -283,7 +283,18 @@ impl Property for C04 {
                 }
                 _ => Op::Restart { i },
             };
+            let restarted = if let Op::Restart { i } = &op { Some(*i) } else { None };
             ops.push(op);
+            if let Some(i) = restarted {
+                // what is only in memory is gone now: the restarted replica writes again (a key of another
+                // length, an author it has written for before) and old entries are delivered to it once more
+                if rng.chance(2, 3) {
+                    ops.push(Op::Write { i, a: rng.below(3), key: gen_key(rng), c: rng.below(3) });
+                }
+                for _ in 0..rng.range(1, 3) {
+                    ops.push(Op::Deliver { i, w: rng.below(64) });
+                }
+            }
         }
         ops
     }
